@@ -5,6 +5,7 @@ use crate::{
     HashMap,
 };
 use anyhow::{anyhow, bail, ensure, Result};
+use toktrie::TokTrie;
 use derivre::RegexAst;
 use serde::Deserialize;
 
@@ -138,7 +139,18 @@ impl Compiler {
             }
             Atom::Not(inner) => {
                 let id = self.do_token_atom(*inner)?;
-                Ok(self.builder.regex.not(id))
+                let not = self.builder.regex.not(id);
+                // A complement may match invalid UTF-8 (see docs/syntax.md), but never the marker
+                // byte special tokens start with: otherwise `~"a"` allows every special token.
+                let mut no_marker = vec![u32::MAX; 8];
+                let marker = TokTrie::SPECIAL_TOKEN_MARKER as usize;
+                no_marker[marker / 32] &= !(1 << (marker % 32));
+                let text = self.builder.regex.add_ast(RegexAst::Repeat(
+                    Box::new(RegexAst::ByteSet(no_marker)),
+                    0,
+                    u32::MAX,
+                ))?;
+                Ok(self.builder.regex.and(vec![not, text]))
             }
             Atom::Value(value) => match value {
                 Value::LiteralRange(a, b) => {
